@@ -73,8 +73,8 @@ void h_aiff_rate (void)
     # double64.c / pcm.c implementation units assume for them, plus the element rule
     SW = {"short": ("2", "((short) ((((unsigned short) (V)) << 8) | (((unsigned short) (V)) >> 8)))"),
           "int": ("4", "((int) ((((unsigned) (V)) << 24) | ((((unsigned) (V)) << 8) & 0xff0000u) | ((((unsigned) (V)) >> 8) & 0xff00u) | (((unsigned) (V)) >> 24)))"),
-          "int64_t": ("8", "((int64_t) (((((uint64_t) (V)) & 0xffULL) << 56) | ((((uint64_t) (V)) & 0xff00ULL) << 40) | ((((uint64_t) (V)) & 0xff0000ULL) << 24) | ((((uint64_t) (V)) & 0xff000000ULL) << 8) | "
-                             "((((uint64_t) (V)) >> 8) & 0xff000000ULL) | ((((uint64_t) (V)) >> 24) & 0xff0000ULL) | ((((uint64_t) (V)) >> 40) & 0xff00ULL) | (((uint64_t) (V)) >> 56)))")}
+          "int64_t": ("8", "((long) (((((unsigned long) (V)) & 0xffULL) << 56) | ((((unsigned long) (V)) & 0xff00ULL) << 40) | ((((unsigned long) (V)) & 0xff0000ULL) << 24) | ((((unsigned long) (V)) & 0xff000000ULL) << 8) | "
+                             "((((unsigned long) (V)) >> 8) & 0xff000000ULL) | ((((unsigned long) (V)) >> 24) & 0xff0000ULL) | ((((unsigned long) (V)) >> 40) & 0xff00ULL) | (((unsigned long) (V)) >> 56)))")}
     for T, (sz, rule) in SW.items():
         for kind in ("array", "copy"):
             fn = "endswap_%s_%s" % (T, kind)
